@@ -460,6 +460,20 @@ class Exec:
       self.deaf_reported = True
       self.muted.add('de.process-scope-effective')
       diff = [d for d in diff if d not in local_de]
+    elif fresh_de and self.had_thread_de and label == 'dynamic_evaluate[process]':
+      # Same defect, other symptom: the thread that ignores process-wide
+      # functions also saved the wrong "previous" function when it entered
+      # this process-wide block, so the block restored that instead.
+      self.report('process-scope-ignored', 'dynamic_evaluate@after-thread-scope',
+                  f'`with {n["m"]}({n["a"]})` left by {exit_kind}: ' +
+                  '; '.join(f'{k}: before {b!r}, after {a!r}'
+                            for k, b, a in fresh_de + local_de))
+      self.deaf_reported = True
+      self.muted.add('de.process-scope-effective')
+      if self.env.process_ok:
+        S.heal_process_state(self.state['de_glob'])
+        self.counters['process_state_heals'] += 1
+      diff = [d for d in diff if d not in local_de and d not in fresh_de]
     for k, b, a in diff:
       name = k[len('fresh-thread:'):] if k.startswith('fresh-thread:') else k
       o = S.OBS_BY_NAME.get(name)
